@@ -123,6 +123,20 @@ def rand_inner(rng_, chars, union_only):
     return G.chain(elems, ops), ops
 
 
+def mark_last(inner):
+    """the set with `, ...` behind its last operand (None if that operand cannot carry one)"""
+    import copy
+    s_ = copy.deepcopy(inner)
+    node = s_
+    while 'e' not in node:
+        node = node['operant']
+    e = node['e']
+    if e.get('k') in ('single', 'range'):
+        e['x'] = True
+        return s_
+    return None
+
+
 def judge(ck, cases, results):
     aterms, aidx, oterms, oidx = [], [], [], []
     csterms = []
@@ -430,6 +444,12 @@ def run(ck):
             if ck.rng.random() < 0.5:
                 cs.reverse()
             cases.append({'op': 'alphabet', 'cs': t, 'constraints': cs, '_inner': inner2, '_ops': ops2, '_fam': 'from-extensible+closed'})
+            # the marker inside the parentheses of FROM: `FROM ("a".."c" | "x", ...)` -- it sits on the last operand
+            inner3, ops3 = rand_inner(ck.rng, chars, True)
+            marked = mark_last(inner3)
+            if marked is not None:
+                cases.append({'op': 'alphabet', 'cs': t, 'constraints': [{'set': G.E(G.alpha(marked)), 'ext': False}], '_fam': 'from-extensible',
+                              '_text': '(FROM (%s))' % G.t_eos(marked)})
         for _ in range(n // 10):
             # FROM (..) EXCEPT "string": removing one string value does not change the permitted alphabet (known finding when it does)
             inner, ops = rand_inner(ck.rng, chars, True)
